@@ -106,6 +106,36 @@ def serializer_contracts():
         property_clauses={k: "C09" for k in ("verdict_is_the_csvpaths_verdict", "completed_is_the_csvpaths_completed", "error_count_is_the_number_of_errors_collected",
                                              "identifies_the_member", "distributed_once")} | {"names_the_file_actually_read": "C09,C20"},
         doc={"verdict_is_the_csvpaths_verdict": "C09: 'manifest.json ... valid'; C04: the archived verdict is the run's verdict"}))
+    # ---- ResultsManager.save: the member's files are written first, then fingerprinted into its manifest -- each once, for this result
+    RM = "csvpath/managers/results/results_manager.py"
+    CF["Result"].update({"g_serialized": "int", "g_registered": "int", "g_lines_is_spooler": "bool", "g_spooler_closed": "int"})
+    CF["ResultsManager"] = {**CF.get("ResultsManager", {}), "_csvpaths": "obj:CsvPaths", "csvpaths": "obj:CsvPaths"}
+    iface(f"{RM}::ResultsManager.do_transfers_if", {"result": "val"}, why="do_transfers_if copies data.csv/unmatched.csv to the transfer-mode targets (not part of C09)")
+    iface(f"{RS}::ResultSerializer.__init__", {"base_dir": "val"}, why="ResultSerializer(base_dir) remembers the archive directory")
+    iface(f"{RS}::ResultSerializer.save_result", {"result": "obj:Result"}, modifies=["result.g_serialized"], ensures={"n": "result.g_serialized == old(result.g_serialized) + 1"},
+          why="ResultSerializer.save_result is under its own contract (C10: under the run's own directory; this module: _save)")
+    cs[-1].variant = "counted"
+    iface(f"{RR}::ResultRegistrar.__init__", {"csvpaths": "val", "result": "obj:Result", "result_serializer": "val"}, modifies=["self.result"],
+          ensures={"for_this_result": "self.result is result"}, why="ResultRegistrar(...) remembers the result it registers")
+    cs.append(Contract(target=f"{RR}::ResultRegistrar.register_complete", interface=True, variant="counted", types={"mdata": "val"},
+                       requires=["self.result.g_serialized > self.result.g_registered"], modifies=["self.result.g_registered"],
+                       ensures={"n": "self.result.g_registered == old(self.result.g_registered) + 1"}, returns="none", class_fields=CF,
+                       assumptions=["ResultRegistrar.register_complete fingerprints the files in the member's directory and writes its manifest (own contract above); "
+                                    "its precondition here: the files of this save have been written"]))
+    iface("csvpath/csvpaths.py::CsvPaths.config", {}, returns="obj:Config", why="CsvPaths.config is the instance's Config")
+    iface("csvpath/util/config.py::Config.archive_path", {}, returns="val", why="Config.archive_path is the configured archive directory")
+    iface(f"{RES}::Result.lines", {}, returns="val", why="Result.lines is the member's line spooler or list (closing a spooler is the bounded script's subject)")
+    cs.append(Contract(
+        target=f"{RM}::ResultsManager.save", variant="list_lines",
+        types={"result": "obj:Result", "self._csvpaths": "obj:CsvPaths", "self.csvpaths": "obj:CsvPaths"},
+        requires=["result.g_serialized == result.g_registered"],
+        modifies=["result.g_serialized", "result.g_registered"],
+        ensures={"serialised_once_and_registered_once": "result.g_serialized == old(result.g_serialized) + 1 and result.g_registered == old(result.g_registered) + 1"},
+        callee_variants={"ResultSerializer.save_result": "counted", "ResultRegistrar.register_complete": "counted"},
+        class_fields=CF, macros=MACROS, returns="none", native={"skip": True},
+        property_clauses={"serialised_once_and_registered_once": "C09,C18", "call:ResultRegistrar.register_complete[counted].requires0": "C09"},
+        doc={"serialised_once_and_registered_once": "C09: every member's files and manifest are written by save(); the manifest's fingerprints are taken after the files exist "
+                                                    "(requires-at-call obligation of register_complete)"}))
     return cs
 
 
